@@ -174,7 +174,7 @@ class Summaries(object):
             exit_dom = dom.get(cfg.exit.id) or set()
             node_of = {}
             for cn in cfg.nodes:
-                if cn.ast is not None:
+                if cn.ast is not None and cn.kind in ('stmt', 'cond', 'return', 'switch', 'abort'):
                     for x in cn.ast.walk():
                         node_of[id(x)] = cn.id
             for (k, n) in outs:
